@@ -111,6 +111,18 @@ class RFFKernel(Kernel):
             )
         self.register_buffer("randn_weights", randn_weights)
 
+    def _load_from_state_dict(
+        self, state_dict, prefix, local_metadata, strict, missing_keys, unexpected_keys, error_msgs
+    ):
+        # Without num_dims the random weights are only created in the first forward pass: a kernel that has not
+        # been evaluated yet gets its (own copy of the) weights from the checkpoint
+        weights_key = prefix + "randn_weights"
+        if weights_key in state_dict and not hasattr(self, "randn_weights"):
+            self._init_weights(randn_weights=state_dict[weights_key].detach().clone())
+        super()._load_from_state_dict(
+            state_dict, prefix, local_metadata, strict, missing_keys, unexpected_keys, error_msgs
+        )
+
     def forward(self, x1: Tensor, x2: Tensor, diag: bool = False, last_dim_is_batch: bool = False, **kwargs) -> Tensor:
         if last_dim_is_batch:
             x1 = x1.transpose(-1, -2).unsqueeze(-1)
